@@ -971,7 +971,8 @@ def run_mt(ck):
     N = 1500 if quick else 6000
     plan = [("queue", 4, N, 0), ("buffer", 4, N, 0), ("seq", 4, N, 0), ("prio", 4, N, 0), ("lim", 3, N // 2, 3), ("lim", 4, N // 3, 1),
             ("limq", 3, N // 2, 2), ("jq", 2, N, 0), ("jr", 2, N, 0), ("jqm", 2, N // 3, 0), ("jk", 3, N, 0),
-            ("wonce", 2, 3 if quick else 20, 0), ("wonce", 3, 2 if quick else 10, 0), ("owrite", 3, 2 if quick else 10, 0)]
+            ("wonce", 2, 3 if quick else 20, 0), ("wonce", 3, 2 if quick else 10, 0), ("owrite", 3, 2 if quick else 10, 0),
+            ("oreg", 2, 4 if quick else 30, 0), ("wreg", 2, 3 if quick else 20, 0)]
     bad = []
     inconclusive = []
     runs = 0
@@ -990,7 +991,7 @@ def run_mt(ck):
     ck.extra["mt_runs"] = runs
     ck.oblige("monitor:multi-threaded real runs (FIFO per producer, sequencer exact order, priority drain, limiter ghost counter at an "
               "instrumented successor, join tuple consistency, racing first writers of write_once_node / writers of overwrite_node with the "
-              "store into the buffer held open)", "correspondence", not bad, bad[:2])
+              "store into the buffer held open; a successor being attached to an overwrite_node / write_once_node while another thread writes)", "correspondence", not bad, bad[:2])
     ck.oblige("monitor:multi-threaded real runs terminate with every message delivered", "correspondence", not inconclusive, inconclusive[:2])
     for sc, seed, P, n, T, what in bad[:1]:
         ck.counterexample("mt:%s" % sc, "multi-threaded scenario %s seed %d: %s" % (sc, seed, what),
